@@ -1072,6 +1072,17 @@ fn run_corpus(args: &Args, prop: &'static str, plan: Plan) -> i32 {
     }
     total.count_n("corpus.receivers_total", built.recvs.len() as u64);
     total.count_n("corpus.broken_programs", broken.len() as u64);
+    // a shard that does not build takes all its programs out of the run: one or two can be the
+    // subject's own doing (C20 reports those), more than a quarter means the run saw too little to
+    // be called "held" — most likely the emitter itself wrote something that does not compile
+    let n_shards = built.corpus.shards.len();
+    let n_built = built.corpus.shards.iter().filter(|s| s.built).count();
+    total.count_n("corpus.shards_built", n_built as u64);
+    total.count_n("corpus.shards_not_built", (n_shards - n_built) as u64);
+    if n_built * 4 < n_shards * 3 && total.violations.is_empty() {
+        let first = built.compile_errors.first().map(|e| format!("{} line {}: [{}] {}", e.shard, e.line, e.code, e.message)).unwrap_or_default();
+        vfcommon::die(&format!("only {n_built} of {n_shards} generated crates compile (first error: {first}); too little was observed"));
+    }
     let feat = feature_table(&built.recvs);
     let mut extra = serde_json::Map::new();
     extra.insert("programs".into(), json!(built.tops.len()));
